@@ -136,6 +136,7 @@ pub fn blob_len(mix: SizeMix) -> BoxedStrategy<usize> {
             8 => 65usize..=4096,
             3 => prop_oneof![Just(8191usize), Just(8192usize), Just(8193usize)],
             2 => prop_oneof![Just(16384usize), Just(16385usize), Just(1023usize), Just(1024usize), Just(1025usize)],
+            3 => prop_oneof![Just(255usize), Just(256usize), Just(257usize), Just(4095usize), Just(4097usize), Just(32768usize), Just(65535usize), Just(65536usize), Just(65537usize), Just(131072usize), Just(262144usize)],
             2 => prop_oneof![Just(MIB - 1), Just(MIB), Just(MIB + 1)],
             1 => (2 * MIB)..(3 * MIB),
         ]
@@ -146,6 +147,7 @@ pub fn blob_len(mix: SizeMix) -> BoxedStrategy<usize> {
             4 => 2usize..=64,
             3 => 65usize..=4096,
             3 => prop_oneof![Just(8191usize), Just(8192usize), Just(8193usize), Just(16385usize)],
+            3 => prop_oneof![Just(255usize), Just(256usize), Just(4095usize), Just(4096usize), Just(65535usize), Just(65536usize), Just(65537usize), Just(262144usize), Just(524288usize)],
             5 => prop_oneof![Just(MIB - 1), Just(MIB), Just(MIB + 1)],
             1 => (2 * MIB)..(3 * MIB),
         ]
